@@ -19,7 +19,7 @@ const MODS: [&str; 4] = ["A", "B", "C", "D"];
 /// two different member signatures, importers whose well-typedness depends on that signature,
 /// cycles, self-imports, imports from a module that only exists after a rename (D), local type
 /// errors, syntax errors, empty files.
-const TEXTS: [&str; 13] = [
+const TEXTS: [&str; 16] = [
   /* 0 */ "class X(val v: int) {\n  function mk(): X = X.init(1)\n  function f(): int = 1\n}\n",
   /* 1 */ "class X(val v: int) {\n  function mk(): X = X.init(1)\n  function f(): bool = true\n}\n",
   /* 2 */
@@ -36,9 +36,17 @@ const TEXTS: [&str; 13] = [
   /* 11 */ "class X(val v: bool) {\n  function mk(): X = X.init(true)\n  function f(): int = 1\n}\n",
   // depends on A only *through* the types in B's signature (no import of A): transitive invalidation
   /* 12 */ "import { Y } from B\nclass W {\n  function w(): int = Y.h().v\n}\n",
+  // names of 16 bytes and more live in the collected part of the string heap: a declaration whose
+  // names are used nowhere else, and two users that are parsed later
+  /* 13 */
+  "class X(val sixteenBytesFieldName: int, val v: int) {\n  function mk(): X = X.init(1, 2)\n  function f(): int = 1\n  function functionWithAVeryLongName(): int = 2\n}\nclass VariantHolderLongName(VariantWithAVeryLongName(int), OtherVariantLongName) {}\n",
+  /* 14 */
+  "import { X } from A\nclass U {\n  function g(): int = X.mk().sixteenBytesFieldName + X.functionWithAVeryLongName()\n}\n",
+  /* 15 */
+  "import { X, VariantHolderLongName } from A\nclass U2 {\n  function g(h: VariantHolderLongName): int = match h { VariantWithAVeryLongName(n) -> n, OtherVariantLongName -> X.mk().v }\n}\n",
 ];
 
-const INITS: [&[(u8, u8)]; 8] = [
+const INITS: [&[(u8, u8)]; 10] = [
   &[],
   &[(0, 0), (1, 2)],
   &[(0, 1), (1, 2)],
@@ -47,6 +55,8 @@ const INITS: [&[(u8, u8)]; 8] = [
   &[(0, 5), (1, 3), (2, 4)],
   &[(0, 0), (2, 4)],
   &[(0, 0), (1, 2), (2, 12)],
+  &[(0, 13), (2, 5)],
+  &[(0, 13), (1, 14)],
 ];
 const UPDATE2: [[(u8, u8); 2]; 4] =
   [[(0, 1), (1, 3)], [(0, 0), (1, 2)], [(0, 8), (2, 2)], [(1, 0), (2, 10)]];
@@ -343,8 +353,19 @@ fn run_checked(hist: &[Op], cache: &FreshCache) -> Option<(usize, String, String
     if let Err(e) = apply(&mut w, *op) {
       return Some((i, format!("{:?}:panic", op).split('(').next().unwrap().to_string() + ":panic", e));
     }
-    if let Some((s, m)) = check(&w, cache, op) {
-      return Some((i, s, m));
+    match vcore::run::guarded(|| {
+      let r = check(&w, cache, op);
+      if r.is_none() {
+        let _ = fingerprint(&w); // reads the whole global signature, like the explorer does
+      }
+      r
+    }) {
+      Ok(Some((s, m))) => return Some((i, s, m)),
+      Ok(None) => {}
+      Err(p) => {
+        let kind = format!("{op:?}").split('(').next().unwrap().to_string();
+        return Some((i, format!("{kind}:state-unreadable:{p}"), format!("after {}: reading the server's diagnostics / global signature panicked: {p}", describe(op))));
+      }
     }
   }
   None
@@ -407,9 +428,12 @@ fn main() {
             Ok(w) => w,
             Err(e) => machinery_failure(&format!("prefix {hist:?} failed on replay: {e}")),
           };
+          let kind = format!("{op:?}").split('(').next().unwrap().to_string();
           let r = match apply(&mut w, *op) {
-            Err(e) => Err((format!("{}:panic", format!("{op:?}").split('(').next().unwrap()), e)),
-            Ok(()) => match check(&w, &cache, op) {
+            Err(e) => Err((format!("{kind}:panic"), e)),
+            // reading the state (diagnostics, global signature) is what every later request does:
+            // a panic while observing it is the server's, not the harness's
+            Ok(()) => match vcore::run::guarded(|| match check(&w, &cache, op) {
               Some(v) => Err(v),
               None => {
                 // outcome class = the diagnostics now held (for the vacuity counter)
@@ -419,6 +443,9 @@ fn main() {
                 }
                 Ok((fingerprint(&w), h.finish()))
               }
+            }) {
+              Ok(r) => r,
+              Err(p) => Err((format!("{kind}:state-unreadable:{p}"), format!("after {}: reading the server's diagnostics / global signature panicked: {p}", describe(op)))),
             },
           };
           out.push((*op, r));
